@@ -13,6 +13,14 @@ def main():
     a = ap.parse_args()
     seed = int(os.environ.get('VERIF_SEED', '0') or 0)
     tier = a.tier if a.tier in ('quick', 'thorough') else 'quick'
+    import common
+    if a.replay:
+        _orig = common.Result.__init__
+
+        def _init(self, *args, **kw):
+            _orig(self, *args, **kw)
+            self.replay_mode = True
+        common.Result.__init__ = _init
     mod = importlib.import_module(a.prop.lower())
     rc = mod.run(tier, seed, replay=a.replay)
     sys.exit(rc)
